@@ -25,10 +25,11 @@ def elem_names(prefix, shape):
 class Inp:
     """one tensor input of an op"""
 
-    def __init__(self, label, shape, differentiable=True, **dom):
+    def __init__(self, label, shape, differentiable=True, param=False, **dom):
         self.label = label
         self.shape = tuple(shape)
         self.differentiable = differentiable
+        self.param = param          # wrap into nn.Parameter (layer weights)
         self.dom = dom
 
 
@@ -59,6 +60,9 @@ class OpDef:
     def epsilon_zero(self):
         """ops whose kernels add the guard constant: exact identities are checked with epsilon := 0"""
         return False
+
+    def exp_scale(self, args):
+        return 1
 
 
 def as_list(o):
@@ -116,7 +120,11 @@ class OpCase:
             a = env.arr(sp.label, sp.shape, dt, **sp.dom)
             names[sp.label] = elem_names(sp.label, sp.shape)
             r = bool(req[i]) if req is not None else (req_default and sp.differentiable)
-            ts.append(Tn(a, requires_grad=r and sp.differentiable))
+            t = Tn(a, requires_grad=r and sp.differentiable)
+            if sp.param:
+                from synapgrad import nn
+                t = nn.Parameter(t)
+            ts.append(t)
             arrays.append(a)
         return specs, ts, arrays, names
 
@@ -175,13 +183,25 @@ class OpCase:
             out.fact("rejects-illegal-arguments", False,
                      "an argument combination outside the documented domain returned a tensor of shape %s" % (shapes,))
             return out
-        ref = self.opdef.reference(self.args, arrays, extra)
+        try:
+            ref = self.opdef.reference(self.args, arrays, extra)
+        except sc.Unsupported:
+            raise
+        except Exception as e:  # noqa: BLE001 - the oracle itself failed on a configuration declared legal
+            raise sc.Unsupported("reference failed: %s: %s" % (type(e).__name__, e))
         outs = as_list(o)
         if ref is not None:
             refs = as_list(ref) if isinstance(ref, (tuple, list)) else [ref]
             out.fact("n-outputs", len(refs) == len(outs), "%d outputs, reference has %d" % (len(outs), len(refs)))
+            cexp = getattr(self.opdef, "compare_exp", False)
             for k, (oo, rr) in enumerate(zip(outs, refs)):
-                out.pair("out%d" % k, oo.data, rr)
+                if cexp and np.shape(oo.data) == np.shape(rr):
+                    # log-valued terms are compared after exponentiation (A = B <=> exp(cA) = exp(cB), c != 0;
+                    # c undoes the 1/count of a mean so that every log atom has an integer coefficient)
+                    c = self.opdef.exp_scale(self.args)
+                    out.pair("exp(out%d)" % k, _exp_all(oo.data, c), _exp_all(rr, c))
+                else:
+                    out.pair("out%d" % k, oo.data, rr)
         else:
             for k, oo in enumerate(outs):
                 out.notes["obs:out%d" % k] = oo.data
@@ -190,6 +210,20 @@ class OpCase:
 
     run_C05 = run_value
     run_C06 = run_value
+
+
+def _exp_all(x, c=1):
+    nd = x._nd if isinstance(x, ar.SymArray) else None
+    x = x.view(np.ndarray) if isinstance(x, np.ndarray) else np.asarray(x)
+    symbolic = x.dtype == object
+    o = np.empty(x.shape, dtype=object if symbolic else x.dtype)
+    for idx in np.ndindex(*x.shape):
+        v = x[idx]
+        o[idx] = (v * c).exp() if isinstance(v, S) else (S(sc.const(v * c)).exp() if symbolic else np.exp(v * c))
+    if symbolic:
+        o = o.view(ar.SymArray)
+        o._nd = nd if nd is not None else np.dtype(np.float64)
+    return o
 
 
 # ------------------------------------------------------------------------------------------------ shape helpers
